@@ -785,8 +785,8 @@ impl<'a> LiveEvents<'a> {
             return MarkInput::Text(text);
         }
         match self.reader_tail.as_ref().and_then(|tail| tail.ended_in_line()) {
-            Some((total_chars, last_line_chars)) => MarkInput::ReaderEndedInLine {
-                total_chars,
+            Some((last_line, last_line_chars)) => MarkInput::ReaderEndedInLine {
+                last_line,
                 last_line_chars,
             },
             None => MarkInput::Unknown,
